@@ -51,6 +51,10 @@ type Term struct {
 
 // Ctx interns terms (hash-consing). One Ctx per explored path / worker.
 type Ctx struct {
+	known    map[int]bool // boolean terms with a value fixed by the path condition
+	knownVer int
+	resMemo  map[int]*Term
+	resVer   int
 	tab   map[string]*Term
 	next  int
 	True  *Term
@@ -66,6 +70,142 @@ func NewCtx() *Ctx {
 }
 
 func (c *Ctx) NumTerms() int { return c.next }
+
+// Learn records that the boolean term t holds on this path.
+func (c *Ctx) Learn(t *Term) { c.learn(t, true) }
+
+// LearnValue records the value of boolean term t on this path.
+func (c *Ctx) LearnValue(t *Term, v bool) { c.learn(t, v) }
+
+// IteConds returns the distinct ite conditions occurring in t that are not yet
+// fixed by the path condition (at most max).
+func (c *Ctx) IteConds(t *Term, max int) []*Term {
+	var out []*Term
+	seen := map[int]bool{}
+	var rec func(x *Term)
+	rec = func(x *Term) {
+		if seen[x.ID] || len(out) >= max {
+			return
+		}
+		seen[x.ID] = true
+		if x.Op == OIte {
+			if _, ok := c.known[x.Args[0].ID]; !ok {
+				dup := false
+				for _, o := range out {
+					if o == x.Args[0] {
+						dup = true
+					}
+				}
+				if !dup {
+					out = append(out, x.Args[0])
+				}
+			}
+		}
+		for _, a := range x.Args {
+			rec(a)
+		}
+	}
+	rec(t)
+	return out
+}
+
+func (c *Ctx) learn(t *Term, v bool) {
+	if c.known == nil {
+		c.known = map[int]bool{}
+	}
+	switch {
+	case t.Op == ONot:
+		c.learn(t.Args[0], !v)
+		return
+	case t.Op == OAnd && v, t.Op == OOr && !v:
+		for _, a := range t.Args {
+			c.learn(a, v)
+		}
+	}
+	if _, ok := c.known[t.ID]; !ok {
+		c.known[t.ID] = v
+		c.knownVer++
+	}
+}
+
+// Resolve rewrites t, replacing every ite whose condition is fixed by the path
+// condition with the selected branch.
+func (c *Ctx) Resolve(t *Term) *Term {
+	if len(c.known) == 0 {
+		return t
+	}
+	if c.resVer != c.knownVer || c.resMemo == nil {
+		c.resMemo = map[int]*Term{}
+		c.resVer = c.knownVer
+	}
+	return c.resolve(t)
+}
+
+func (c *Ctx) resolve(t *Term) *Term {
+	if len(t.Args) == 0 {
+		return t
+	}
+	if r, ok := c.resMemo[t.ID]; ok {
+		return r
+	}
+	var r *Term
+	if t.Bool {
+		if v, ok := c.known[t.ID]; ok {
+			r = c.BoolC(v)
+			c.resMemo[t.ID] = r
+			return r
+		}
+	}
+	args := make([]*Term, len(t.Args))
+	changed := false
+	for i, a := range t.Args {
+		args[i] = c.resolve(a)
+		if args[i] != a {
+			changed = true
+		}
+	}
+	if !changed {
+		r = t
+	} else {
+		switch t.Op {
+		case OLin:
+			l := newLin()
+			l.c.Set(t.C)
+			for i, a := range args {
+				l.add(a, t.Coef[i])
+			}
+			r = c.buildLin(l)
+		case OMul:
+			r = c.Mul(args[0], args[1])
+		case ODiv:
+			r = c.Div(args[0], args[1])
+		case OMod:
+			r = c.Mod(args[0], args[1])
+		case OIte:
+			r = c.Ite(args[0], args[1], args[2])
+		case OBitAnd:
+			r = c.BitAnd(args[0], args[1], t.W)
+		case OBitOr:
+			r = c.BitOr(args[0], args[1], t.W)
+		case OBitXor:
+			r = c.BitXor(args[0], args[1], t.W)
+		case OEq:
+			r = c.Eq(args[0], args[1])
+		case OLe:
+			r = c.Le(args[0], args[1])
+		case ONot:
+			r = c.Not(args[0])
+		case OAnd:
+			r = c.And(args...)
+		case OOr:
+			r = c.Or(args...)
+		default:
+			r = t
+		}
+	}
+	c.resMemo[t.ID] = r
+	return r
+}
 
 func key(t *Term) string {
 	var sb strings.Builder
@@ -428,6 +568,9 @@ func (c *Ctx) Sum(ts ...*Term) *Term {
 // Mul multiplies two terms; products of linear forms are distributed so that
 // the only nonlinear atoms are products of two non-linear-form terms.
 func (c *Ctx) Mul(a, b *Term) *Term {
+	if a.Op != OConst && b.Op != OConst && len(c.known) > 0 {
+		a, b = c.Resolve(a), c.Resolve(b)
+	}
 	if a.Op == OConst {
 		return c.MulC(b, a.C)
 	}
@@ -580,6 +723,18 @@ func (c *Ctx) splitMultiple(a *Term, k *big.Int) (*Term, *Term) {
 	return c.buildLin(la), c.buildLin(lr)
 }
 
+// isWordLike: a single atom (word, slice) whose range exceeds k by a small
+// factor only, so that its division by k is a digit slice of the atom itself.
+func isWordLike(t *Term, k *big.Int) bool {
+	if t.Op == OLin || t.Op == OConst || t.Op == OMul {
+		return false
+	}
+	if t.Lo == nil || t.Hi == nil || t.Lo.Sign() < 0 {
+		return false
+	}
+	return t.Hi.Cmp(new(big.Int).Lsh(k, 70)) < 0
+}
+
 // scaledSplit finds g (1 < g < k, g | k) with a = g*A + B and 0 <= B < g.
 func (c *Ctx) scaledSplit(a *Term, k *big.Int) (*big.Int, *Term, *Term, bool) {
 	if a.Op != OLin {
@@ -626,13 +781,18 @@ func (c *Ctx) DivC(a *Term, k *big.Int) *Term {
 		if R.Lo != nil && R.Hi != nil && R.Lo.Sign() >= 0 && R.Hi.Cmp(k) < 0 {
 			return A
 		}
-		if R.Lo != nil && R.Hi != nil {
-			// a div k = A + (R div k)
+		if R.Lo != nil && R.Hi != nil && isWordLike(R, k) {
+			// a div k = A + (R div k): R is a single word-like atom, so the
+			// remaining division is a digit slice of that atom's own base
 			return c.Add(A, c.DivC(R, k))
 		}
 	}
 	if a.Op == OIte && (a.Args[1].IsConst() || a.Args[2].IsConst()) {
 		return c.Ite(a.Args[0], c.DivC(a.Args[1], k), c.DivC(a.Args[2], k))
+	}
+	// (x mod m) div k = (x div k) mod (m/k) when k | m   (canonical slice form)
+	if a.Op == OMod && a.Args[1].IsConst() && new(big.Int).Mod(a.Args[1].C, k).Sign() == 0 {
+		return c.ModC(c.DivC(a.Args[0], k), new(big.Int).Quo(a.Args[1].C, k))
 	}
 	// (g*A + B) div k = A div (k/g) when g | k and 0 <= B < g
 	if g, A, _, ok := c.scaledSplit(a, k); ok {
@@ -676,7 +836,7 @@ func (c *Ctx) ModC(a *Term, k *big.Int) *Term {
 	}
 	A, R := c.splitMultiple(a, k)
 	if !(A.Op == OConst && A.C.Sign() == 0) {
-		if R.Lo != nil && R.Hi != nil {
+		if R.Lo != nil && R.Hi != nil && (isWordLike(R, k) || (R.Lo.Sign() >= 0 && R.Hi.Cmp(k) < 0)) {
 			return c.ModC(R, k)
 		}
 	}
@@ -852,8 +1012,14 @@ func (c *Ctx) Eq(a, b *Term) *Term {
 	if a.Op == OConst && a.C.Sign() == 0 && b.Op == OBitOr {
 		return c.Eq(b, a)
 	}
-	if a.Op == OIte && b.Op == OConst && (a.Args[1].IsConst() || a.Args[2].IsConst()) {
-		return c.Ite(a.Args[0], c.Eq(a.Args[1], b), c.Eq(a.Args[2], b))
+	if a.Op == OIte && b.Op == OConst {
+		if a.Args[1].IsConst() || a.Args[2].IsConst() {
+			return c.Ite(a.Args[0], c.Eq(a.Args[1], b), c.Eq(a.Args[2], b))
+		}
+		ea, eb := c.Eq(a.Args[1], b), c.Eq(a.Args[2], b)
+		if ea.IsBoolConst() || eb.IsBoolConst() {
+			return c.Ite(a.Args[0], ea, eb)
+		}
 	}
 	if b.Op == OIte && a.Op == OConst {
 		return c.Eq(b, a)
@@ -922,6 +1088,21 @@ func (c *Ctx) Ne(a, b *Term) *Term { return c.Not(c.Eq(a, b)) }
 
 // ---------------------------------------------------------------- machine ints
 
+// clamp intersects the interval of t with [lo, hi]; the caller guarantees that
+// the value of t always lies in that range (a semantic fact about the term).
+func (c *Ctx) clamp(t *Term, lo, hi *big.Int) *Term {
+	if t.Op == OConst {
+		return t
+	}
+	if t.Lo == nil || t.Lo.Cmp(lo) < 0 {
+		t.Lo = lo
+	}
+	if t.Hi == nil || t.Hi.Cmp(hi) > 0 {
+		t.Hi = hi
+	}
+	return t
+}
+
 // WrapU reduces a to [0, 2^w).
 func (c *Ctx) WrapU(a *Term, w int) *Term {
 	m := Pow2(w)
@@ -931,10 +1112,10 @@ func (c *Ctx) WrapU(a *Term, w int) *Term {
 	if a.Lo != nil && a.Hi != nil {
 		m2 := new(big.Int).Lsh(m, 1)
 		if a.Lo.Sign() >= 0 && a.Hi.Cmp(m2) < 0 && a.Op != OMul {
-			return c.Ite(c.Ge(a, c.Const(m)), c.AddC(a, new(big.Int).Neg(m)), a)
+			return c.clamp(c.Ite(c.Ge(a, c.Const(m)), c.AddC(a, new(big.Int).Neg(m)), a), big0, new(big.Int).Sub(m, big1))
 		}
 		if a.Hi.Cmp(m) < 0 && a.Lo.Cmp(new(big.Int).Neg(m)) >= 0 {
-			return c.Ite(c.Lt(a, c.Int(0)), c.AddC(a, m), a)
+			return c.clamp(c.Ite(c.Lt(a, c.Int(0)), c.AddC(a, m), a), big0, new(big.Int).Sub(m, big1))
 		}
 	}
 	return c.ModC(a, m)
@@ -952,8 +1133,8 @@ func (c *Ctx) WrapS(a *Term, w int) *Term {
 		lo2 := new(big.Int).Sub(nh, m)
 		hi2 := new(big.Int).Add(h, m)
 		if a.Lo.Cmp(lo2) >= 0 && a.Hi.Cmp(hi2) < 0 {
-			return c.Ite(c.Ge(a, c.Const(h)), c.AddC(a, new(big.Int).Neg(m)),
-				c.Ite(c.Lt(a, c.Const(nh)), c.AddC(a, m), a))
+			return c.clamp(c.Ite(c.Ge(a, c.Const(h)), c.AddC(a, new(big.Int).Neg(m)),
+				c.Ite(c.Lt(a, c.Const(nh)), c.AddC(a, m), a)), nh, new(big.Int).Sub(h, big1))
 		}
 	}
 	u := c.ModC(c.AddC(a, h), m)
